@@ -58,6 +58,10 @@ func c05Gen(g *Gen) {
 			c05GenChain(g)
 			continue
 		}
+		if g.Intn(12) == 0 {
+			c05GenSnapshots(g)
+			continue
+		}
 		mode := "std"
 		switch g.Intn(30) {
 		case 0:
@@ -209,6 +213,130 @@ func c05GenChain(g *Gen) {
 }
 
 func (g *Gen) c05Pick2(xs ...string) string { return xs[g.R.Intn(len(xs))] }
+
+// validator snapshot histories (one case): vnew <keys> | vwarm <snap> | vder <snap> | vrep <old> <new> |
+// vset <i> <key> | vadd <key> | vrem <key> | vsnap | vver <snap> <keys...>. Keys are a pool of 8 wallets.
+// A real state.ValidatorSnapshot is created, used (IndexOf / VerifyBlock build its address cache), a
+// ValidatorState is derived from it and changed, and commit vote lists are verified against the OLD and
+// the NEW snapshot objects.
+func c05GenSnapshots(g *Gen) {
+	n := g.Pick(3, 4, 4, 5)
+	perm := g.R.Perm(8)
+	cur := append([]int(nil), perm[:n]...)
+	out := append([]int(nil), perm[n:]...) // keys not in the set
+	js := func(xs []int) string {
+		ss := make([]string, len(xs))
+		for i, x := range xs {
+			ss[i] = strconv.Itoa(x)
+		}
+		return strings.Join(ss, " ")
+	}
+	g.Emit("vnew %s", strings.ReplaceAll(js(cur), " ", "."))
+	snaps := [][]int{append([]int(nil), cur...)}
+	verify := func(j int) {
+		l := snaps[j]
+		q := len(l)*2/3 + 1
+		var keys []int
+		switch g.Intn(6) {
+		case 0, 1: // members, quorum or all
+			keys = append(keys, l...)
+			g.R.Shuffle(len(keys), func(a, b int) { keys[a], keys[b] = keys[b], keys[a] })
+			if g.Intn(2) == 0 && q < len(keys) {
+				keys = keys[:q]
+			}
+		case 2: // quorum-1 members + one key that is (or became) a member of another snapshot
+			keys = append(keys, l...)
+			g.R.Shuffle(len(keys), func(a, b int) { keys[a], keys[b] = keys[b], keys[a] })
+			if q-1 < len(keys) {
+				keys = keys[:q-1]
+			}
+			other := snaps[g.Intn(len(snaps))]
+			keys = append(keys, other[g.Intn(len(other))])
+		case 3: // the members of another snapshot
+			keys = append(keys, snaps[g.Intn(len(snaps))]...)
+		case 4: // members + an outsider
+			keys = append(keys, l...)
+			keys = append(keys, g.Intn(8))
+		case 5: // too few
+			keys = append(keys, l[:len(l)*2/3]...)
+		}
+		g.Emit("vver %d %s", j, js(keys))
+	}
+	if g.Intn(4) > 0 {
+		if g.Intn(2) == 0 {
+			g.Emit("vwarm 0")
+		} else {
+			verify(0)
+		}
+	}
+	for round := 0; round < 1+g.Intn(2); round++ {
+		base := g.Intn(len(snaps))
+		if g.Intn(3) > 0 {
+			base = len(snaps) - 1
+		}
+		g.Emit("vder %d", base)
+		cur = append([]int(nil), snaps[base]...)
+		outs := []int{}
+		for k := 0; k < 8; k++ {
+			in := false
+			for _, x := range cur {
+				if x == k {
+					in = true
+				}
+			}
+			if !in {
+				outs = append(outs, k)
+			}
+		}
+		out = outs
+		for m := 0; m < 1+g.Intn(3); m++ {
+			switch g.Intn(8) {
+			case 0, 1, 2: // replace a member by an outsider
+				if len(out) > 0 && len(cur) > 0 {
+					i, j := g.Intn(len(cur)), g.Intn(len(out))
+					g.Emit("vrep %d %d", cur[i], out[j])
+					cur[i], out[j] = out[j], cur[i]
+				}
+			case 3, 4:
+				if len(out) > 0 && len(cur) > 0 {
+					i, j := g.Intn(len(cur)), g.Intn(len(out))
+					g.Emit("vset %d %d", i, out[j])
+					cur[i], out[j] = out[j], cur[i]
+				}
+			case 5:
+				if len(out) > 0 {
+					j := g.Intn(len(out))
+					g.Emit("vadd %d", out[j])
+					cur = append(cur, out[j])
+					out = append(out[:j], out[j+1:]...)
+				}
+			case 6:
+				if len(cur) > 2 {
+					i := g.Intn(len(cur))
+					g.Emit("vrem %d", cur[i])
+					out = append(out, cur[i])
+					cur = append(cur[:i], cur[i+1:]...)
+				}
+			case 7: // refused operations
+				if len(cur) > 1 {
+					g.Emit("vrep %d %d", cur[0], cur[1])
+					g.Emit("vset %d %d", len(cur)+1, cur[0])
+				}
+			}
+			if g.Intn(3) == 0 { // the old snapshot is used while the state is being changed
+				verify(g.Intn(len(snaps)))
+			}
+		}
+		g.Emit("vsnap")
+		snaps = append(snaps, append([]int(nil), cur...))
+		for k := 0; k < 2+g.Intn(3); k++ {
+			verify(g.Intn(len(snaps)))
+		}
+		if g.Intn(2) == 0 {
+			g.Emit("vwarm %d", g.Intn(len(snaps)))
+		}
+	}
+}
 
 // pb <n> <round> <pseq> <pre> <items>: the fast-sync path (consensus.processBlock)
 //
@@ -378,6 +506,10 @@ type c05Runner struct {
 	hf    *block.V2HeaderFormat
 	bf    *block.V2BodyFormat
 	count int
+	// validator snapshot histories
+	vsnaps []state.ValidatorSnapshot
+	vaddrs [][]string // addresses of every snapshot, captured when it was created
+	vstate state.ValidatorState
 }
 
 type c05T struct{ errs []string }
@@ -933,6 +1065,9 @@ func (r *c05Runner) Step(t []string, o *Oracle) string {
 	if len(t) == 6 && t[0] == "pb" {
 		return r.stepPB(t, o)
 	}
+	if len(t) >= 1 && len(t[0]) > 1 && t[0][0] == 'v' && t[0] != "vb" {
+		return r.stepSnapshots(t, o)
+	}
 	if len(t) == 5 && t[0] == "chain" {
 		return r.startChain(t, o)
 	}
@@ -1124,4 +1259,253 @@ func (r *c05Runner) Step(t []string, o *Oracle) string {
 		}
 	}
 	return sb.String()
+}
+
+// ---------------------------------------------------------------- validator snapshot histories
+
+func c05VKey(k int) module.Wallet { return c05Wallet(40 + k) }
+
+func c05Validator(k int) module.Validator {
+	v, err := state.ValidatorFromAddress(c05VKey(k).Address())
+	if err != nil {
+		panic(err)
+	}
+	return v
+}
+
+// capture reads the members of a snapshot through Get(i) (never through IndexOf)
+func c05Capture(vss state.ValidatorSnapshot) []string {
+	var as []string
+	for i := 0; i < vss.Len(); i++ {
+		v, _ := vss.Get(i)
+		as = append(as, string(v.Address().Bytes()))
+	}
+	return as
+}
+
+func (r *c05Runner) showSnap(j int) string {
+	var ks []string
+	for _, a := range r.vaddrs[j] {
+		name := "?"
+		for k := 0; k < 8; k++ {
+			if string(c05VKey(k).Address().Bytes()) == a {
+				name = strconv.Itoa(k)
+			}
+		}
+		ks = append(ks, name)
+	}
+	if len(ks) == 0 {
+		return fmt.Sprintf("snap %d -", j)
+	}
+	return fmt.Sprintf("snap %d %s", j, strings.Join(ks, "."))
+}
+
+// every snapshot must still hold the validators it was created with
+func (r *c05Runner) checkSnapshotsUnchanged(o *Oracle) {
+	for j, vss := range r.vsnaps {
+		now := c05Capture(vss)
+		o.Check(strings.Join(now, "|") == strings.Join(r.vaddrs[j], "|"), "c05-verified-against-mutated-validator-snapshot",
+			"snapshot %d no longer lists the validators it was created with", j)
+	}
+}
+
+func (r *c05Runner) stepSnapshots(t []string, o *Oracle) string {
+	atoi := func(s string, max int) (int, bool) {
+		v, err := strconv.Atoi(s)
+		return v, err == nil && v >= 0 && v <= max
+	}
+	snapArg := func(s string) (int, bool) {
+		j, ok := atoi(s, 1000)
+		return j, ok && j < len(r.vsnaps)
+	}
+	switch t[0] {
+	case "vnew":
+		if len(t) != 2 {
+			return "bad-op"
+		}
+		var vs []module.Validator
+		seen := map[int]bool{}
+		if t[1] != "-" {
+			for _, p := range strings.Split(t[1], ".") {
+				k, ok := atoi(p, 7)
+				if !ok || seen[k] {
+					return "bad-op"
+				}
+				seen[k] = true
+				vs = append(vs, c05Validator(k))
+			}
+		}
+		vss, err := state.ValidatorSnapshotFromSlice(db.NewMapDB(), vs)
+		if err != nil {
+			return "bad-op"
+		}
+		r.vsnaps = append(r.vsnaps, vss)
+		r.vaddrs = append(r.vaddrs, c05Capture(vss))
+		o.Count("vs-new")
+		return r.showSnap(len(r.vsnaps) - 1)
+	case "vwarm":
+		if len(t) != 2 {
+			return "bad-op"
+		}
+		j, ok := snapArg(t[1])
+		if !ok {
+			return "bad-op"
+		}
+		var out []string
+		for k := 0; k < 8; k++ {
+			idx := r.vsnaps[j].IndexOf(c05VKey(k).Address())
+			want := -1
+			for i, a := range r.vaddrs[j] {
+				if a == string(c05VKey(k).Address().Bytes()) {
+					want = i
+				}
+			}
+			o.Check(idx == want, "c05-verified-against-mutated-validator-snapshot",
+				"snapshot %d: IndexOf(key %d)=%d, the list it was created with says %d", j, k, idx, want)
+			out = append(out, strconv.Itoa(idx))
+		}
+		o.Count("vs-indexof")
+		return strings.Join(out, " ")
+	case "vder":
+		if len(t) != 2 {
+			return "bad-op"
+		}
+		j, ok := snapArg(t[1])
+		if !ok {
+			return "bad-op"
+		}
+		r.vstate = state.ValidatorStateFromSnapshot(r.vsnaps[j])
+		return "ok"
+	case "vrep", "vset":
+		if len(t) != 3 || r.vstate == nil {
+			return "bad-op"
+		}
+		a, ok1 := atoi(t[1], 100)
+		b, ok2 := atoi(t[2], 7)
+		if !ok1 || !ok2 || (t[0] == "vrep" && a > 7) {
+			return "bad-op"
+		}
+		var err error
+		if t[0] == "vrep" {
+			err = r.vstate.Replace(c05Validator(a), c05Validator(b))
+		} else {
+			err = r.vstate.SetAt(a, c05Validator(b))
+		}
+		r.checkSnapshotsUnchanged(o)
+		o.Count("vs-" + t[0])
+		if err != nil {
+			return "err"
+		}
+		return "ok"
+	case "vadd", "vrem":
+		if len(t) != 2 || r.vstate == nil {
+			return "bad-op"
+		}
+		k, ok := atoi(t[1], 7)
+		if !ok {
+			return "bad-op"
+		}
+		o.Count("vs-" + t[0])
+		if t[0] == "vadd" {
+			if err := r.vstate.Add(c05Validator(k)); err != nil {
+				return "err"
+			}
+			r.checkSnapshotsUnchanged(o)
+			return "ok"
+		}
+		res := r.vstate.Remove(c05Validator(k))
+		r.checkSnapshotsUnchanged(o)
+		if res {
+			return "1"
+		}
+		return "0"
+	case "vsnap":
+		if len(t) != 1 || r.vstate == nil {
+			return "bad-op"
+		}
+		vss := r.vstate.GetSnapshot()
+		r.vsnaps = append(r.vsnaps, vss)
+		r.vaddrs = append(r.vaddrs, c05Capture(vss))
+		return r.showSnap(len(r.vsnaps) - 1)
+	case "vver":
+		if len(t) < 2 {
+			return "bad-op"
+		}
+		j, ok := snapArg(t[1])
+		if !ok {
+			return "bad-op"
+		}
+		height, round := int64(7), int32(0)
+		bid := c05Hash("vs-block", 1)
+		psid := &consensus.PartSetID{Count: 1, Hash: c05Hash("vs-ps", 1)}
+		var tss []int64
+		var sigs [][]byte
+		// expectation from the addresses captured at creation time (no IndexOf involved)
+		members := map[string]int{}
+		for i, a := range r.vaddrs[j] {
+			members[a] = i
+		}
+		allMembers, distinct := true, true
+		seen := map[int]bool{}
+		for _, p := range t[2:] {
+			k, ok := atoi(p, 7)
+			if !ok {
+				return "bad-op"
+			}
+			vm := consensus.VerifSignedVote(c05VKey(k), consensus.VoteTypePrecommit, height, round, bid, psid, 0, 0, 500)
+			tss = append(tss, 500)
+			sigs = append(sigs, consensus.VerifVoteSignatureBytes(vm))
+			if _, in := members[string(c05VKey(k).Address().Bytes())]; !in {
+				allMembers = false
+			}
+			if seen[k] {
+				distinct = false
+			}
+			seen[k] = true
+		}
+		cvl, err := consensus.VerifRawCommitVoteList(round, consensus.VerifPSIDWithAppData(psid, 0, 0), tss, sigs)
+		if err != nil {
+			return "bad-op"
+		}
+		n, m := len(r.vaddrs[j]), len(sigs)
+		voted, verr, panicked := c05Verify(cvl, &c05Block{height: height, id: bid}, r.vsnaps[j])
+		if panicked != nil {
+			o.Check(false, "c05-verified-against-mutated-validator-snapshot", "VerifyBlock against snapshot %d panics: %v", j, panicked)
+			return "panic"
+		}
+		want := allMembers && distinct && ((n == 0 && m == 0) || 3*m > 2*n)
+		o.Check((verr == nil) == want, "c05-verified-against-mutated-validator-snapshot",
+			"VerifyBlock against snapshot %d (%s): err=%v for signers %v, but by the validators the snapshot was created with the list is valid=%v",
+			j, r.showSnap(j), verr, t[2:], want)
+		if verr == nil {
+			for i, b := range voted {
+				var by bool
+				for k := range seen {
+					if members[string(c05VKey(k).Address().Bytes())] == i && allMembers {
+						by = true
+					}
+				}
+				o.Check(b == by, "c05-verified-against-mutated-validator-snapshot", "voted[%d]=%v against snapshot %d", i, b, j)
+			}
+		}
+		r.checkSnapshotsUnchanged(o)
+		o.Count("vs-verify")
+		if verr != nil {
+			return "reject"
+		}
+		if len(voted) == 0 {
+			return "ok -"
+		}
+		var sb strings.Builder
+		sb.WriteString("ok ")
+		for _, b := range voted {
+			if b {
+				sb.WriteByte('1')
+			} else {
+				sb.WriteByte('0')
+			}
+		}
+		return sb.String()
+	}
+	return "bad-op"
 }
